@@ -45,8 +45,11 @@ def c06Line (line : String) : String :=
     | some "mintfee" => do
       -- one public mint on a real minter of kind k (created through its factory): who received how much of the network fee
       let k ← natKv ws "kind"; let p ← natKv ws "price"; let b ← natKv ws "bps"; let d ← natKv ws "dev"
+      let devbad := (boolKv ws "devbad").getD false
       let ms := Sg1.mintFeeMsgs k p b d
-      if !Sg1.allNonzero ms then pure "err"
+      -- a configured developer address that does not validate: `addr_validate(dev_fee_address)?` refuses the mint when a fee is due
+      if devbad && Sg1.callerHasDev k && mulFloor p (bps b) != 0 then pure "err"
+      else if !Sg1.allNonzero ms then pure "err"
       else pure s!"ok fee={mulFloor p (bps b)} dev={Sg1.sentTo d ms} liq={Sg1.sentTo LIQUIDITY_DAO ms} lp={Sg1.sentTo LAUNCHPAD_DAO ms} burned={Sg1.burnedBy ms} pool={Sg1.sentTo FAIRBURN_POOL ms}"
     | some "shufflefee" => do
       -- Shuffle on a vending-family minter: `checked_fair_burn(shuffle_fee, None)` on behalf of the minter contract
